@@ -345,6 +345,41 @@ def isNashPure (nums : List Nat) (pay : List (List α)) (tol : α) (a : List Nat
 def pureNashBrute (nums : List Nat) (pay : List (List α)) (tol : α) : List (List Nat) :=
   (profiles nums).filter (isNashPure nums pay tol)
 
+/-! ### the game object and its history
+
+A `NormalFormGame` object, as far as the solvers are concerned, is its current pair of payoff
+arrays; `g[i, j] = (a, b)` and in-place writes into `players[k].payoff_array` replace entries.
+The solvers take `(g.m, g.n, g.A, g.B)` and nothing else: no state survives a call. -/
+
+structure Game (α : Type) where
+  m : Nat
+  n : Nat
+  A : Nat → Nat → α
+  B : Nat → Nat → α
+
+inductive GOp (α : Type) where
+  /-- `g[i, j] = (a, b)` -/
+  | setItem (i j : Nat) (a b : α)
+  /-- `g.players[0].payoff_array[i, j] = v` -/
+  | setA (i j : Nat) (v : α)
+  /-- `g.players[1].payoff_array[j, i] = v` -/
+  | setB (j i : Nat) (v : α)
+
+def upd {β : Type} (f : Nat → Nat → β) (i j : Nat) (v : β) : Nat → Nat → β :=
+  fun i' j' => if i' = i ∧ j' = j then v else f i' j'
+
+def Game.apply {β : Type} (g : Game β) : GOp β → Game β
+  | .setItem i j a b => { g with A := upd g.A i j a, B := upd g.B j i b }
+  | .setA i j v => { g with A := upd g.A i j v }
+  | .setB j i v => { g with B := upd g.B j i v }
+
+/-- the object after a history of writes -/
+def Game.run {β : Type} (g : Game β) (ops : List (GOp β)) : Game β := ops.foldl Game.apply g
+
+/-- `lemke_howson(g, init_pivot, max_iter, capping)` on the object as it is now -/
+def Game.lemkeHowson (g : Game α) (initPivot maxIter capping : Nat) (tp td : α) : LHOut α :=
+  lhCapping g.m g.n g.A g.B initPivot maxIter capping tp td
+
 /-! ### line protocol -/
 
 local instance : Zero Float := ⟨0.0⟩
